@@ -74,7 +74,7 @@ LEVEL = {
         text="Theorems over the excitation model: a pulse fires exactly when counter+1 exceeds the period and has height sqrt(period); from any counter in (0,1] — "
              "which a start and every pulse leave — the next gap is floor(T0) or floor(T0)+1 and exactly T0 for integer T0, with the counter back in (0,1] "
              "(so every gap of a constant-F0 stretch is floor/ceil T0 and the mean power is 1); the period glides linearly; period = rate/exp(clamped log-F0); "
-             "LCG deviates in [0,1]. The defect found (first gap T0-1 for an integer period) is repaired in /repo (fix: 98d6dc9). The mixing law is a theorem too: the rotating ring buffer "
+             "LCG deviates in [0,1]; unit mean power is a theorem (pulse_train_unit_power: over any n samples at a constant period the energy is n + c0 - cn, within one period of n). The defect found (first gap T0-1 for an integer period) is repaired in /repo (fix: 98d6dc9). The mixing law is a theorem too: the rotating ring buffer "
              "of Excitation::get emits, at each sample, the convolution of the queued contributions (pulse x h plus noise x (delta - h)) — for every buffer length "
              "and history (ringRun_conv, excGet_is_ringStep). Partial only in the whiteness/variance of the one fixed pseudo-random noise sequence, which is a statistic "
              "of a concrete sequence and is decided by running the implementation and the bit-identical model.",
@@ -85,7 +85,10 @@ LEVEL = {
         text="Partial. Theorems: the cepstrum <-> MLSA-coefficient maps are mutually inverse for every alpha; with zero coefficients the Pade cascade is the "
              "identity in every state; shifting c0 by delta shifts only b0 and scales the filter input by exp(delta); the cascade is homogeneous in its input, so the "
              "response scales with exp(c0); with frozen coefficients the filter is linear and time-invariant, so its output on any excitation is the convolution "
-             "of the excitation with the response to one pulse (response_is_convolution) — which is why measuring one pulse response decides the filter. The analytic clause (0.01 neper against "
+             "of the excitation with the response to one pulse (response_is_convolution) — which is why measuring one pulse response decides the filter. The transfer function is an identity of the code's arithmetic for every alpha and order: "
+             "the filter is two cascaded stages (filter_is_two_stages), each exactly P(F)/P(-F) of its basic filter with P the degree-5 Pade polynomial the code carries "
+             "(stage1_is_pade, stage2_is_pade), and b0 + F1 + F2 = sum_m c_m z~^-m, the warped cepstrum polynomial (exponent_is_model_spectrum) — so H = exp(b0) R(F1) R(F2), R = P(w)/P(-w). "
+             "What is left to execution is only how well R approximates exp. The analytic clause (0.01 neper against "
              "sum c_m cos(m w~)) is a bound on the Pade(5) error of a concrete rational function and is decided on every run by the DFT of the implementation's "
              "pulse response through the public Vocoder; the Lean vocoder model is bit-identical to the implementation on all executed runs.",
         note="Trusted: Lean kernel; axioms ⊆ {propext, Classical.choice, Quot.sound}; spectral accuracy is test-level (no complex analysis / IEEE semantics in the theorems).",
@@ -96,7 +99,9 @@ LEVEL = {
              "quadratic factors times (1 -/+ z^-1) (lsp2lpc_poly, every order, odd and even); well-separated frequencies pass the stability check unchanged; the cascade of stage sections is linear and time-invariant, output = excitation convolved "
              "with the pulse response; for alpha = 0 the formula itself is an identity of the code's arithmetic: the coefficient chain run on every frame "
              "collapses to [K, a_1..a_m] with a the coefficients of (P+Q)/2, and the cascade computes the all-pole difference equation of 1/A(z)^stage "
-             "(coefficients_are_gain_and_lpc, cascade_is_all_pole; the powf laws used are hypotheses). The magnitude formula K/|A|^s (0.001 neper) and decay are decided on every run "
+             "(coefficients_are_gain_and_lpc, cascade_is_all_pole; the powf laws used are hypotheses); for EVERY alpha the cascade is `stage` identical sections, one section inverts "
+             "1 + sum_k c_k Phi_k over the warped basis, and for the vocoder's LSP coefficients that is kappa/A(z~) with A = (P+Q)/2 read in the warped delay, the gains multiplying up to K "
+             "(filter_is_stage_sections, section_inverts_warped_polynomial, section_is_warped_all_pole, gains_multiply_to_K) — K/A(z~)^stage as an identity of the code's arithmetic. The magnitude formula K/|A|^s (0.001 neper) and decay are decided on every run "
              "by DFT of the implementation's pulse response against A(z) built by polynomial multiplication; model bit-identical to the implementation.",
         note="Trusted: as C06; for alpha != 0 (warped delay line) and for the passage from the difference equation to the magnitude |H(e^jw)| the check is numerical (DFT), not a theorem.",
     ),
@@ -178,7 +183,8 @@ LEVEL = {
     "C18": dict(
         text="Theorem parse_no_panic: for every byte sequence the guarded reader model — which mirrors each slice, reference lookup, size product and digit "
              "accumulation of the loader as an explicit site — returns a voice or an error; the same sites are panics in the unguarded (pinned) model, each with a "
-             "machine-checked witness. The defects (F6, F9) were established by the fault enumeration on the real loader and repaired (fix: e8c81ac, cb42dc8). "
+             "machine-checked witness. Size bounds (streams_/models_/windows_bounded_by_file): whatever the header claims, an accepted voice has no more streams, questions, trees, tree "
+             "rows, PDF words, windows or window coefficients than the file has bytes. The defects (F6, F9) were established by the fault enumeration on the real loader and repaired (fix: e8c81ac, cb42dc8). "
              "Partial: that the real binary never hangs or allocates without bound is observed (fault enumeration under address-space and wall-clock limits), and "
              "the tie between reader model and loader is differential (panic class gates; ok/err drift is reported).",
         note="Trusted: Lean kernel; axioms ⊆ {propext, Classical.choice, Quot.sound}; nom/serde internals are outside the model; OS allocator behaviour is observed.",
